@@ -11,6 +11,11 @@
      mean_loss l c p ph start n   mean over the n draws of generator ph from `start` of loss l c p
      improves s s'      (lowest, best) unchanged, or lowest s' strictly below lowest s
 
+   Tie to the source: the C05_gen_* theorems state that the definitions GENERATED from BaseSolver._update_best and
+   its call site in _run_epoch (coq/gen/Gen_C04.v, regenerated on every run by tools/props/t_C04.py) equal the
+   model's: which key's history is read, the comparison `(lowest_loss is None) or current_loss < lowest_loss`
+   (strict), what is stored, when it is called.
+
    Recorded finding F7 (kept visible): FULL-STRENGTH best_reproduces for EVERY tracked entry fails when the
    entry was recorded by a TRAINING epoch driven by a closure optimiser (n_batches_valid = 0): the snapshot
    is taken after the optimiser moved the parameters.  C05_best_reproduces carries the restricting
@@ -18,7 +23,8 @@
    instead; findings/F_C05_closure.v refutes the full-strength statement. *)
 From Coq Require Import List Arith Bool Lia.
 From ND.model Require Import Solver.
-From ND.proofs Require Import C15_base C05_best.
+From ND.gen Require Import Gen_C04.
+From ND.proofs Require Import C15_base C05_best C04_gen.
 Import ListNotations.
 
 Section P_C05.
@@ -175,6 +181,11 @@ Section P_C05.
   Local Notation closure_pts := (C05_best.closure_pts P G B V O C loss gradl closure_opt).
   Local Notation closure_fold_spec := (C05_best.closure_fold_spec P G B V O C loss gradl metric vadd closure_opt).
   Local Notation best_closure_novalid_partial := (C05_best.best_closure_novalid_partial P G B V O C loss gradl metric nmetrics gzero gadd vzero vadd vdivn vltb requires_closure opt_step closure_opt draw).
+  Local Notation gen_guard_is_model := (C04_gen.gen_guard_is_model P G B V O C loss gradl metric nmetrics gzero gadd vzero vadd vdivn vltb requires_closure opt_step closure_opt draw).
+  Local Notation gen_entries_are_model := (C04_gen.gen_entries_are_model P G B V O C loss gradl metric nmetrics gzero gadd vzero vadd vdivn vltb requires_closure opt_step closure_opt draw).
+  Local Notation gen_tracks_is_model := (C04_gen.gen_tracks_is_model P G V O C).
+  Local Notation gen_better_is_model := (C04_gen.gen_better_is_model P G V O C vltb).
+  Local Notation gen_update_best_is_model := (C04_gen.gen_update_best_is_model P G V O C vltb).
 
   Hypothesis vlt_trans : forall a b c, vltb a b = true -> vltb b c = true -> vltb a c = true.
   Hypothesis vlt_cotrans : forall a b c, vltb a b = true -> vltb a c = true \/ vltb c b = true.
@@ -226,5 +237,19 @@ Section P_C05.
                                  (map (fun bp => loss (lid s) (conds s) (last (snd bp) d) (fst bp))
                                       (closure_pts (lid s) (conds s) (ost s) (theta s) bs)) vzero) (nb_train s).
   Proof. exact best_closure_novalid_partial. Qed.
+
+  Theorem C05_gen_tracks : forall ph (s : state), tracks ph s = gen_tracks (negb (is_train ph)) (nb_valid s).
+  Proof. exact gen_tracks_is_model. Qed.
+
+  Theorem C05_gen_better : forall (leb : V -> V -> bool) (v : V) (s : state),
+    better v s = gen_better vltb leb (lowest s) v.
+  Proof. exact gen_better_is_model. Qed.
+
+  Theorem C05_gen_update_best : forall (leb : V -> V -> bool) ph clo (s : state) h v,
+    hist ph s = h ++ [v] ->
+    gen_current_loss (hist ph s) = Some v /\
+    (lowest (update_best ph clo s), best (update_best ph clo s)) =
+    gen_update_best vltb leb (lowest s) (best s) v (theta s).
+  Proof. exact gen_update_best_is_model. Qed.
 
 End P_C05.
